@@ -55,16 +55,25 @@ def treedir():
     if not os.path.isdir(d):
         os.makedirs(d, exist_ok=True)
         _evict()
+    else:
+        try:
+            os.utime(d, None)  # mark as in use
+        except OSError:
+            pass
     return d
 
 
-def _evict(keep=2):
+def _evict(keep=6, min_age_s=3 * 3600):
+    """drop caches of old trees (disk is limited), but never one that another concurrent run
+    (e.g. a check against a seeded-defect tree) may be using: only directories untouched for
+    three hours, beyond the `keep` most recent"""
     try:
         ds = [d for d in glob.glob(os.path.join(CACHE, "*")) if os.path.isdir(d)]
         ds.sort(key=os.path.getmtime, reverse=True)
         cur = os.path.join(CACHE, treehash())
+        now = time.time()
         for d in ds[keep:]:
-            if d != cur:
+            if d != cur and now - os.path.getmtime(d) > min_age_s:
                 shutil.rmtree(d, ignore_errors=True)
     except OSError:
         pass
